@@ -210,7 +210,7 @@ func RunC02(rep *explore.Report, tier string) {
 	if tier == "thorough" {
 		maxN, devN = 5, 4
 	}
-	rep.Set("rule", fmt.Sprintf("every vector of n<=%d players x contribution 0..4 x fold flag x strength class 0..2 fed to pot.LevelList and settlement.Result exactly as the engine does (for n<=%d also every map order with <=1 non-default choice); plus 5 players with contributions in {1,2} and {1,2,3} and 6 players with contributions in {1,2}, strengths {0,1}; oracle refSettle on the per-player changes; distinct_nontrivial = distinct result vectors observed", maxN, devN))
+	rep.Set("rule", fmt.Sprintf("every vector of n<=%d players x contribution 0..4 x fold flag x strength class 0..2 fed to pot.LevelList and settlement.Result exactly as the engine does (for n<=%d also every map order with <=1 non-default choice); plus 5 players with contributions in {1,2,3,4} and 6 players with contributions in {1,2,4}, strengths {0,1}; oracle refSettle on the per-player changes; distinct_nontrivial = distinct result vectors observed", maxN, devN))
 	var execs, vectors, constrained int64
 	var outcomes sync.Map
 	var nOut int64
@@ -257,7 +257,7 @@ func RunC02(rep *explore.Report, tier string) {
 	for _, rd := range []struct {
 		n    int
 		vals []int64
-	}{{5, []int64{1, 2}}, {5, []int64{1, 2, 3}}, {6, []int64{1, 2}}} {
+	}{{5, []int64{1, 2}}, {5, []int64{1, 2, 3, 4}}, {6, []int64{1, 2}}, {6, []int64{1, 2, 4}}} {
 		n, vals := rd.n, rd.vals
 		total := ipow(len(vals), n) * ipow(2, n) * ipow(2, n)
 		parallel(total, n, func(w int, k int64) {
